@@ -123,7 +123,7 @@ def run_block(case, res):
     if o.kind != "ok":
         res["machinery"].append("cannot send %s on %s: %r" % (op, cfg.name, o.brief()))
         return
-    req = drivers.open_request(cfg, w.take_request())
+    req = drivers.open_request(cfg, w.take_request(), strict=False, check_mac=False)
     if case.get("sizes"):
         return run_sizes(case, res, cfg, op, w, req, it)
     skels = skeleton_pdus(op, req.request_id)
